@@ -1,7 +1,7 @@
 (* C06 -- property theorems only; each closed by `exact` and followed by Print Assumptions.
    (Proofs.LabelAlignExamples holds computed non-trivial instances of the hypotheses/conclusions.) *)
 Require Import SF.Prelude SF.Dtype SF.SetAlg SF.LabelAlign SF.FrameAlign Proofs.SetAlgFacts Proofs.LabelAlignFacts Proofs.LabelAlignExamples
-  Proofs.FrameAlignFacts Proofs.FrameReindexFacts Proofs.FrameAlignExamples Proofs.SourceConstantsC06.
+  Proofs.FrameAlignFacts Proofs.FrameReindexFacts Proofs.FrameAlignExamples Proofs.SourceConstantsC06 Proofs.TbBinopFacts.
 
 (* Union / intersection / difference as Index._ufunc_set computes them -- through EVERY path of the
    decision procedure (Index.equals shortcut, empty shortcuts, the assume_unique same-length
@@ -154,6 +154,16 @@ Theorem C06_frame_reindex_every_layout_is_label_lookup :
                               new_index new_columns.
 Proof. exact frame_reindex_label_spec. Qed.
 Print Assumptions C06_frame_reindex_every_layout_is_label_lookup.
+
+(* TypeBlocks._ufunc_binary_operator between two aligned TypeBlocks does not depend on either block
+   layout: the block_compatible path, the reblock (consolidation) path and the column-wise path (since fix
+   e1c1c73) all equal the operator applied column by column, cell by cell, to the flattened operands. *)
+Theorem C06_tb_binop_layout_independent :
+  forall (V R : Type) (f : V -> V -> R) (a b : list (blk V)),
+  length (columns_of V a) = length (columns_of V b) ->
+  M_tb_binop_g V R f a b = Ok (S_tb_binop V R f a b).
+Proof. exact tb_binop_layout_independent. Qed.
+Print Assumptions C06_tb_binop_layout_independent.
 
 (* The keyword constants of the source (REGENERATED into Gen/Gen_c06.v on every run: check_equals=False and
    union in Series._ufunc_binary_operator, union x4 in Frame._ufunc_binary_operator, fill_value=np.nan,
